@@ -42,6 +42,7 @@ type Solver struct {
 	marker    int
 	intMode   bool
 	intOK     map[uint32]bool
+	hiMemo    map[uint32]float64
 	// script log of definitions, for cross-checking with another solver
 	defLines []string
 	logAll   bool
@@ -75,7 +76,7 @@ func NewSolver(name string, ts *TermStore, timeoutMs int) (*Solver, error) {
 		return nil, err
 	}
 	s := &Solver{name: name, cmd: cmd, in: in, out: bufio.NewReaderSize(outp, 1<<16), ts: ts,
-		defined: map[uint32]bool{}, ufDone: map[string]bool{}, timeoutMs: timeoutMs, intOK: map[uint32]bool{}}
+		defined: map[uint32]bool{}, ufDone: map[string]bool{}, timeoutMs: timeoutMs, intOK: map[uint32]bool{}, hiMemo: map[uint32]float64{}}
 	s.send("(set-option :produce-models true)")
 	if name == "cvc5" {
 		s.send("(set-logic ALL)")
